@@ -77,6 +77,7 @@ INVARIANT TrNotThroughWall
 INVARIANT TrAtMostOneCell
 INVARIANT TrGoalLeadsToTerminal
 INVARIANT TrTerminalAbsorbing
+INVARIANT TrMarginal
 INVARIANT TrClosed
 """
 # invariant of the trace spec -> clause names it stands for
@@ -86,6 +87,7 @@ TRACE_INV_CLAUSES = {
     "TrAtMostOneCell": {"more-than-one-cell", "terminal-from-non-goal-state"},
     "TrGoalLeadsToTerminal": {"own-goal-not-terminal"},
     "TrTerminalAbsorbing": {"terminal-not-absorbing", "terminal-pays"},
+    "TrMarginal": {"marginal", "marginal-sum"},
     "TrClosed": {"closure", "malformed"},
 }
 
@@ -273,8 +275,9 @@ class RealGame:
             return False
 
     def expand(self, s):
-        """25 rows of (projected outcome, probability, rewards, raw outcome)."""
-        rows = []
+        """25 rows of (projected outcome, probability, rewards, raw outcome), and per row the two per-agent
+        marginals of the returned table as marginalize() gives them ([] when it raises)."""
+        rows, margs = [], []
         for k in range(25):
             ja = self.ja(k)
             d = self.gg.next_state_dist(s, ja)
@@ -295,7 +298,21 @@ class RealGame:
                         rr = [float("nan"), float("nan")]
                     merged[key] = {"n": n, "p": p, "r": rr, "raw": ns}
             rows.append(list(merged.values()))
-        return rows
+            mm = []
+            for an in self.names:
+                try:
+                    m = d.marginalize(lambda e, an=an: ({"x": int(e[an]["x"]), "y": int(e[an]["y"])}
+                                                        if not self.gg.is_terminal(e) else {"x": -1, "y": -1}))
+                    agg = {}
+                    for c, p in zip(m.support, m.probs):
+                        if float(p) > 0.0 or float(p) != float(p):
+                            key = (c["x"], c["y"])
+                            agg[key] = agg.get(key, 0.0) + float(p)
+                    mm.append([{"c": [x, y], "p": p} for (x, y), p in agg.items()])
+                except Exception:                       # noqa: BLE001 - no marginal at all
+                    mm.append([])
+            margs.append(mm)
+        return rows, margs
 
 
 def quant(p):
@@ -318,7 +335,7 @@ def record_layout(ctx, lay):
     init_support = list(gg.initial_state_dist().support)
     s0 = init_support[0]
     cap = (lay["W"] * lay["H"]) ** 2 + 2
-    order, raw, events = [], {}, {}
+    order, raw, events, margs = [], {}, {}, {}
     frontier = [s0]
     raw[str(rg.project(s0))] = s0
     order.append(rg.project(s0))
@@ -331,12 +348,13 @@ def record_layout(ctx, lay):
         s = raw[str(n)]
         try:
             with time_limit(60):
-                rows = rg.expand(s)
+                rows, mg = rg.expand(s)
         except Exception as e:                          # noqa: BLE001 - judged by the caller
             error = {"state": n, "exc": f"{type(e).__name__}: {e}"[:200]}
             break
         ctx.evaluations += 25
         events[str(n)] = rows
+        margs[str(n)] = mg
         if not rg.actions_ok(s):
             ctx.drift("joint_actions", {"layout": digest(lay), "state": n})
         for row in rows:
@@ -362,7 +380,7 @@ def record_layout(ctx, lay):
         if isinstance(e, _Timeout):
             _LIB_TIMEOUTS[0] += 1
         lib, lib_n = f"{type(e).__name__}: {e}"[:200], -1
-    return {"lay": lay, "string": rg.string, "states": order, "events": events, "capped": capped, "error": error,
+    return {"lay": lay, "string": rg.string, "states": order, "events": events, "margs": margs, "capped": capped, "error": error,
             "lib_states": lib, "lib_n": lib_n, "init_n": len(init_support)}
 
 
@@ -465,11 +483,13 @@ def game_pipeline(ctx, recs, *, selftest_expect=None, tag=""):
             if rows is None:
                 continue
             expanded.append(n)
+            mg = r.get("margs", {}).get(str(n)) or [[[], []] for _ in rows]
             traces.append({"lid": li, "kind": "expand", "s": n, "expanded": [],
+                           "marg": [[[{"c": e["c"], "q": quant(e["p"])} for e in m] for m in mm] for mm in mg],
                            "rows": [[{"n": o["n"], "q": quant(o["p"]), "r": [qrew(x) for x in o["r"]]} for o in row]
                                     for row in rows]})
             tmeta.append((li, n))
-        traces.append({"lid": li, "kind": "cover", "s": r["lay"]["init"], "expanded": expanded, "rows": []})
+        traces.append({"lid": li, "kind": "cover", "s": r["lay"]["init"], "expanded": expanded, "rows": [], "marg": []})
         tmeta.append((li, None))
     batch = {"layouts": layouts, "traces": traces}
 
@@ -528,7 +548,7 @@ def game_pipeline(ctx, recs, *, selftest_expect=None, tag=""):
                 for o in row:
                     for c in py_clauses(lay, n, divmod(k, 5), o["n"]):
                         mine.add((k + 1, str(o["n"]), c))
-            theirs = {(b["ja"], str(b["n"]), b["c"]) for b in badset if b["c"] not in ("sum", "terminal-pays")}
+            theirs = {(b["ja"], str(b["n"]), b["c"]) for b in badset if b["c"] not in ("sum", "terminal-pays", "marginal", "marginal-sum")}
             if mine != theirs:
                 raise TLCFailure(f"TLA+ relation and Python relation disagree on layout {li} state {n}: {sorted(mine ^ theirs)[:4]}")
             ctx.count("relation_crosschecks")
@@ -540,7 +560,8 @@ def game_pipeline(ctx, recs, *, selftest_expect=None, tag=""):
                 by_clause.setdefault(b["c"], b)
             for c, b in sorted(by_clause.items()):
                 k = b["ja"] - 1
-                site = "joint_rewards" if c == "terminal-pays" else "next_state_dist"
+                site = ("joint_rewards" if c == "terminal-pays" else
+                        "next_state_dist+marginalize" if c.startswith("marginal") else "next_state_dist")
                 shape = game_shape(lay, n, divmod(k, 5))
                 row = r["events"][str(n)][k]
                 ctx.violation(f"C18:TabularGridGame.{site}:{c}:{shape}",
@@ -723,8 +744,12 @@ INVARIANT IndependentProduct
 INVARIANT MixLaw
 INVARIANT MargLaw
 INVARIANT StackWellFormed
+INVARIANT ExponentClasses
+INVARIANT ClassOfProduct
 """
-FACTOR_INVS = ["JoinLaw", "JoinCommutes", "IndependentProduct", "MixLaw", "MargLaw", "StackWellFormed"]
+FACTOR_INVS = ["JoinLaw", "JoinCommutes", "IndependentProduct", "MixLaw", "MargLaw", "StackWellFormed",
+               "ExponentClasses", "ClassOfProduct"]
+LN10 = math.log(10.0)
 
 # leaf variables (paths in the nested dictionaries) and their top-level key
 PATHS = {1: ("a",), 2: ("b",), 3: ("c", "x"), 4: ("c", "y"), 5: ("d", "p", "q"), 6: ("d", "r")}
@@ -752,8 +777,24 @@ def rand_table(rng, vs, nvals=3, zero=0.25, maxrows=5):
     return {"vars": vs, "rows": rows, "den": rng.choice([1, 1, 2, 4])}
 
 
-def instr(op, k=0, n=1, d=1, keep=()):
-    return {"op": op, "k": k, "n": n, "d": d, "keep": list(keep)}
+def instr(op, k=0, n=1, d=1, keep=(), e=0):
+    """e: decimal exponent class of a scaling factor (n / d) * 10^e."""
+    return {"op": op, "k": k, "n": n, "d": d, "e": e, "keep": list(keep)}
+
+
+# extreme weight classes: pairs / chains of decimal exponents whose sum leaves (or just touches) the float range
+# exp(-745.1) = 0, exp(709.8) = inf: 10^-323 ~ exp(-743.7), 10^308 ~ exp(709.2)
+XPAIRS = [(-170, -170), (-161, -162), (-160, -162), (-250, -250), (-200, -140), (170, 170), (200, 150), (154, 154),
+          (155, 154), (250, 250), (-170, 0), (0, 200), (-250, 250), (350, 0), (-400, 0), (330, -20), (10, 380)]
+
+
+def small_table(rng, vs, nvals=3, maxrows=3, zero=0.15):
+    """Small mantissas (1..2, denominator 1) so that long chains of products stay inside TLC's integers."""
+    t = rand_table(rng, vs, nvals=nvals, zero=zero, maxrows=maxrows)
+    for r in t["rows"]:
+        r["w"] = min(r["w"], 2)
+    t["den"] = 1
+    return t
 
 
 def reorder(tab, rng):
@@ -771,8 +812,77 @@ def rand_vars(rng, lo=1, hi=3):
 def make_factor_cases(rng, n):
     cases = []
     while len(cases) < n:
-        kind = rng.choice(["and", "and", "and3", "or", "or", "or3", "fence", "andmarg", "indep"])
+        kind = rng.choice(["and", "and", "and3", "or", "or", "or3", "fence", "andmarg", "indep",
+                           "xand", "xand", "xchain", "xscale", "xor", "xmarg", "scalemarg", "fencemarg", "and3marg"])
         lab = rng.randrange(len(VALUE_LABELS))
+        exps = None
+        if kind == "xand":          # two ordinary-looking tables whose product leaves the float range
+            vs = rand_vars(rng, 1, 2)
+            tabs = [rand_table(rng, vs + [v for v in rand_vars(rng, 0, 1) if v not in vs], zero=0.15),
+                    rand_table(rng, vs + [v for v in rand_vars(rng, 0, 1) if v not in vs], zero=0.15), rand_table(rng, vs)]
+            exps = list(rng.choice(XPAIRS)) + [0]
+            prog = [instr("load", 1), instr("load", 2), instr("and")]
+            ctor = [rng.choice(["probs", "logits", "scores"] if abs(x) <= 250 else ["logits", "scores"]) for x in exps]
+            cases.append({"tabs": tabs, "prog": prog, "top": TOPS, "lab": lab, "exps": exps, "ctor": ctor})
+            continue
+        elif kind == "xchain":      # a chain of conjunctions of tiny (or huge) tables over one variable
+            v = rng.choice([1, 2, 3, 4, 5, 6])
+            k = rng.randint(3, 8)
+            tabs = [small_table(rng, [v] + ([w for w in rand_vars(rng, 1, 1) if w != v] if rng.random() < 0.25 else []))
+                    for _ in range(k)]
+            step = rng.choice([-50, -60, -95, 45, 90, -41])
+            exps = [step] * k
+            prog = [instr("load", 1)]
+            for j in range(2, k + 1):
+                prog += [instr("load", j), instr("and")]
+        elif kind == "xscale":      # (p * 1e-200) * 1e-200 & q
+            vs = rand_vars(rng, 1, 2)
+            tabs = [rand_table(rng, vs, zero=0.15), rand_table(rng, vs + [v for v in rand_vars(rng, 0, 1) if v not in vs], zero=0.15),
+                    rand_table(rng, vs)]
+            exps = [0, rng.choice([0, 0, -100, 60]), 0]
+            (a, b), (c, d) = rng.choice(SCALES[:-1]), rng.choice(SCALES[:-1])
+            e1, e2 = rng.choice([(-200, -200), (-200, -150), (180, 180), (-250, -100), (200, 110)])
+            prog = [instr("load", 1), instr("scale", n=a, d=b, e=e1), instr("scale", n=c, d=d, e=e2), instr("load", 2), instr("and")]
+        elif kind == "xor":         # a weighted mixture of two tables of the same (ordinary) class
+            vs = rand_vars(rng, 1, 2)
+            t1 = rand_table(rng, vs)
+            t2 = rand_table(rng, vs)
+            t2["vars"] = list(t1["vars"])
+            x = rng.choice([-150, -90, 120, 200])
+            (a, b), (c, d) = rng.choice(SCALES), rng.choice(SCALES)
+            e = rng.choice([0, 0, -40, 30])
+            tabs, exps = [t1, t2, dict(t1)], [x - e, x - e, 0]
+            prog = [instr("load", 1), instr("scale", n=a, d=b, e=e), instr("load", 2), instr("scale", n=c, d=d, e=e), instr("or")]
+        elif kind == "xmarg":       # marginal of a product whose class is still an ordinary float
+            vs = rand_vars(rng, 1, 2)
+            tabs = [rand_table(rng, vs + [v for v in rand_vars(rng, 1, 1) if v not in vs], zero=0.1),
+                    rand_table(rng, vs + [v for v in rand_vars(rng, 0, 1) if v not in vs], zero=0.1), rand_table(rng, vs)]
+            exps = list(rng.choice([(-90, -90), (-100, -100), (95, 100), (-150, 20), (60, 0)])) + [0]
+            allv = tabs[0]["vars"] + [v for v in tabs[1]["vars"] if v not in tabs[0]["vars"]]
+            keep = [v for v in allv if rng.random() < 0.5] or allv[:1]
+            prog = [instr("load", 1), instr("load", 2), instr("and"), instr("marg", keep=keep)]
+        elif kind == "scalemarg":   # marginal of a scaled table (raw weights do not sum to one)
+            vs = rand_vars(rng, 2, 3)
+            tabs = [rand_table(rng, vs, zero=0.1), rand_table(rng, vs[:1]), rand_table(rng, vs[:1])]
+            a, b = rng.choice(SCALES[:-1])
+            keep = [v for v in tabs[0]["vars"] if rng.random() < 0.5] or tabs[0]["vars"][:1]
+            prog = [instr("load", 1), instr("scale", n=a, d=b, e=rng.choice([0, 0, -3, 2])), instr("marg", keep=keep)]
+        elif kind == "and3marg":    # marginal after joins with shared variables
+            vs = rand_vars(rng, 2, 3)
+            tabs = [rand_table(rng, rng.sample(vs, rng.randint(1, len(vs))), zero=0.1) for _ in range(3)]
+            allv = []
+            for t in tabs:
+                allv += [v for v in t["vars"] if v not in allv]
+            keep = [v for v in allv if rng.random() < 0.5] or allv[:1]
+            prog = [instr("load", 1), instr("load", 2), instr("and"), instr("load", 3), instr("and"), instr("marg", keep=keep)]
+        if kind in ("xand", "xchain", "xscale", "xor", "xmarg", "scalemarg", "and3marg"):
+            big = max(abs(x) for x in (exps or [0]))
+            cases.append({"tabs": tabs, "prog": prog, "top": TOPS, "lab": lab, "exps": exps or [0] * len(tabs),
+                          # 10^300 is no float: beyond +-250 (not generated) only logits could be given
+                          "ctor": [rng.choice(["probs", "logits", "scores"] if big <= 250 else ["logits", "scores"]) for _ in tabs]})
+            continue
+        if kind == "fencemarg":
+            kind = "fence+marg"
         if kind in ("and", "and3", "andmarg"):
             tabs = [rand_table(rng, rand_vars(rng)) for _ in range(3)]
             prog = [instr("load", 1), instr("load", 2), instr("and")]
@@ -810,15 +920,17 @@ def make_factor_cases(rng, n):
                 prog = [instr("load", 1), instr("scale", n=a, d=b), instr("load", 2), instr("scale", n=c, d=d), instr("or"),
                         instr("load", 3), instr("scale", n=e, d=f), instr("or")]
         else:   # fence-like: (move * p | stay * (1 - p)) & mask, as the grid game does
-            vs = rand_vars(rng, 1, 2)
-            t1 = rand_table(rng, vs, maxrows=3)
+            vs = rand_vars(rng, 1, 2) if kind == "fence" else rand_vars(rng, 2, 2)
+            t1 = rand_table(rng, vs, maxrows=3 if kind == "fence" else 4)
             t2 = {"vars": list(t1["vars"]), "rows": [dict(t1["rows"][0], w=1)], "den": 1}
             t3 = {"vars": list(t1["vars"]), "rows": [dict(r, w=rng.choice([0, 1])) for r in t1["rows"]], "den": 1}
             pn, pd = rng.choice(FENCE_PROBS)
             tabs = [t1, t2, t3]
             prog = [instr("load", 1), instr("scale", n=pn, d=pd), instr("load", 2), instr("scale", n=pd - pn, d=pd), instr("or"),
                     instr("load", 3), instr("and")]
-        cases.append({"tabs": tabs, "prog": prog, "top": TOPS, "lab": lab,
+            if kind == "fence+marg":    # marginal after a zero-weight constraint factor (the blocked-move mask)
+                prog += [instr("marg", keep=t1["vars"][:1])]
+        cases.append({"tabs": tabs, "prog": prog, "top": TOPS, "lab": lab, "exps": [0] * len(tabs),
                       "ctor": [rng.choice(["probs", "logits", "scores"]) for _ in tabs]})
     return cases
 
@@ -835,14 +947,15 @@ def make_event(vars_, vals, labels, paths):
     return d
 
 
-def build_real(tab, labels, paths, ctor="probs"):
+def build_real(tab, labels, paths, ctor="probs", ex=0):
+    """The real table with weights (w / den) * 10^ex, given as probs= or as logits= / scores=."""
     from msdm.core.distributions import DiscreteFactorTable as Pr
     import numpy as np
     support = [make_event(tab["vars"], r["vals"], labels, paths) for r in tab["rows"]]
     ws = [r["w"] / tab["den"] for r in tab["rows"]]
     if ctor == "probs":
-        return Pr(support, probs=ws)
-    lg = [math.log(w) if w > 0 else -np.inf for w in ws]
+        return Pr(support, probs=[w * 10.0 ** ex for w in ws])
+    lg = [math.log(w) + ex * LN10 if w > 0 else -np.inf for w in ws]
     if ctor == "logits":
         return Pr(support, logits=lg)
     return Pr(support, scores=lg)
@@ -859,12 +972,20 @@ def flatten(ev, prefix=()):
 
 
 def real_fn(tab):
-    """Real table -> list of (canonical assignment, prob, weight) in support order."""
+    """Real table -> list of (canonical assignment, prob, logit, element) in support order."""
     rows = []
     for e, p, lg in zip(tab.support, tab.probs, tab.logits):
         fl = flatten(e) if isinstance(e, dict) else {("?",): e}
-        rows.append((frozenset((k, repr(v)) for k, v in fl.items()), float(p), math.exp(float(lg)), e))
+        rows.append((frozenset((k, repr(v)) for k, v in fl.items()), float(p), float(lg), e))
     return rows
+
+
+def mantissa(lg, ex):
+    """exp(logit) / 10^ex without leaving the float range (nan stays nan)."""
+    if lg == float("-inf"):
+        return 0.0
+    x = lg - ex * LN10
+    return math.exp(x) if x < 700 else float("inf")
 
 
 def spec_fn(tab, labels, paths):
@@ -875,16 +996,22 @@ def spec_fn(tab, labels, paths):
 
 # independent (declarative, Fraction) statement of the operations, to cross-check the TLA+ emitted tables
 def py_eval(case, upto):
-    stack = []
+    """Returns (positive mantissa function, decimal exponent class) of the table on top after `upto` steps."""
+    stack, xs = [], []
+    exps = case.get("exps") or [0] * len(case["tabs"])
     for ins in case["prog"][:upto]:
         op = ins["op"]
         if op == "load":
             t = case["tabs"][ins["k"] - 1]
             stack.append((tuple(t["vars"]), {tuple(sorted(zip(t["vars"], r["vals"]))): F(r["w"], t["den"]) for r in t["rows"]}))
+            xs.append(exps[ins["k"] - 1])
         elif op == "scale":
             vs, fn = stack.pop()
             stack.append((vs, {k: w * F(ins["n"], ins["d"]) for k, w in fn.items()}))
+            xs.append(xs.pop() + ins.get("e", 0))
         elif op == "and":
+            x2, x1 = xs.pop(), xs.pop()
+            xs.append(x1 + x2)
             (v2, f2), (v1, f1) = stack.pop(), stack.pop()
             out = {}
             for k1, w1 in f1.items():
@@ -895,7 +1022,9 @@ def py_eval(case, upto):
                         out[tuple(sorted(d1.items()))] = w1 * w2
             stack.append((tuple(v1) + tuple(v for v in v2 if v not in v1), out))
         elif op == "or":
+            x2, x1 = xs.pop(), xs.pop()
             (v2, f2), (v1, f1) = stack.pop(), stack.pop()
+            xs.append(x2 if not f1 else x1)
             if not f1:
                 stack.append((v2, f2))
             elif not f2:
@@ -910,7 +1039,7 @@ def py_eval(case, upto):
                 out[kk] = out.get(kk, 0) + w
             stack.append((tuple(ins["keep"]), out))
     vs, fn = stack[-1]
-    return {k: w for k, w in fn.items() if w > 0}
+    return {k: w for k, w in fn.items() if w > 0}, xs[-1]
 
 
 def run_real_factor(case, paths):
@@ -923,10 +1052,11 @@ def run_real_factor(case, paths):
             op = ins["op"]
             try:
                 if op == "load":
-                    stack.append(build_real(case["tabs"][ins["k"] - 1], labels, paths, case["ctor"][ins["k"] - 1]))
+                    stack.append(build_real(case["tabs"][ins["k"] - 1], labels, paths, case["ctor"][ins["k"] - 1],
+                                            ex=(case.get("exps") or [0] * len(case["tabs"]))[ins["k"] - 1]))
                 elif op == "scale":
                     t = stack.pop()
-                    stack.append(t * (ins["n"] / ins["d"]))
+                    stack.append(t * (ins["n"] / ins["d"] * 10.0 ** ins.get("e", 0)))
                 elif op == "and":
                     b, a = stack.pop(), stack.pop()
                     stack.append(a & b)
@@ -953,10 +1083,11 @@ def run_real_factor(case, paths):
     return outs
 
 
-def compare_table(real, exp_rows, *, keys_flat=False):
+def compare_table(real, exp_rows, *, keys_flat=False, ex=0):
     """Compares a real table with the emitted one.  Returns three problem texts (or None each):
     probs   - the normalised probabilities (.probs) as a function of the assignment
-    weights - the weights exp(logit) row by row (the positive rows are exactly the expected ones)
+    weights - the weights exp(logit) row by row, as mantissas exp(logit) / 10^ex of the decimal exponent class
+              ex the spec tracked (the positive rows are exactly the expected ones)
     order   - support rows / their order (zero rows dropped or kept, loop order)"""
     rows = real_fn(real)
     if keys_flat:      # marginalize() results: projection made flat "c.x" keys
@@ -978,19 +1109,19 @@ def compare_table(real, exp_rows, *, keys_flat=False):
             probs = f"row {dict(k)}: probability {got.get(k, 0.0)} vs {float(p)} ({p})"
     wexp = dict(pos)
     wgot = {}
-    for k, p, w, e in rows:
-        wgot[k] = wgot.get(k, 0.0) + w
+    for k, p, lg, e in rows:
+        wgot[k] = wgot.get(k, 0.0) + mantissa(lg, ex)
     for k in list(wgot) + list(wexp):
-        ex = float(wexp.get(k, 0))
-        if weights is None and not abs(wgot.get(k, 0.0) - ex) <= 1e-9 * max(1.0, ex):
-            weights = f"weight exp(logit) of row {dict(k)} is {wgot.get(k, 0.0)} vs {ex} ({wexp.get(k, 0)})"
+        want_w = float(wexp.get(k, 0))
+        if weights is None and not abs(wgot.get(k, 0.0) - want_w) <= 1e-9 * max(1.0, want_w):
+            weights = f"weight exp(logit) of row {dict(k)} is {wgot.get(k, 0.0)}e{ex} vs {want_w}e{ex} ({wexp.get(k, 0)})"
     if [k for k, _, _, _ in rows] != [k for k, _ in exp_rows]:
         order = "support rows / order differ from the reference loops"
     return probs, weights, order
 
 
-def factor_signature(note, what, upstream=()):
-    op = {"and": "product", "or": "mix"}.get(note["op"], note["op"])
+def factor_signature(note, what, upstream=(), ex=0, before=()):
+    op = {"and": "product", "or": "mix", "marg": "marginalize"}.get(note["op"], note["op"])
     if "scale" in upstream:
         op = "__mul__+" + op          # the weighted operand already differed after scaling
     elif "load" in upstream:
@@ -999,8 +1130,14 @@ def factor_signature(note, what, upstream=()):
         shape = "disjoint-vars" if note["disjoint"] else ("same-vars" if note["samevars"] else "overlapping-vars")
     elif note["op"] == "or":
         shape = "same-vars-different-key-order" if note["keyorder"] else "same-vars"
+    elif note["op"] == "marg":
+        shape = "after-" + ("product" if "and" in before else "mix" if "or" in before else "scaling" if "scale" in before else "constructor")
     else:
         shape = "any"
+    if not -300 <= ex <= 300:
+        shape += "+weights-beyond-float-range"
+    elif ex != 0:
+        shape += "+extreme-weights"
     return f"C18:DiscreteFactorTable.{op}:{shape}:{what}"
 
 
@@ -1020,14 +1157,21 @@ def judge_factor_case(ctx, case, steps, paths, *, real=None, label=""):
         op = note["op"]
         exp_rows = spec_fn(rec["res"], labels, paths)
         # machinery cross-check: TLA+ table vs independent declarative Fraction evaluation
-        mine = py_eval(case, si)
+        mine, mine_ex = py_eval(case, si)
+        ex = rec.get("ex", 0)
+        if mine_ex != ex and not rec.get("_selftest_corrupted"):
+            raise TLCFailure(f"TLA+ exponent class {ex} and Python one {mine_ex} disagree at step {si} of case {label}")
         theirs = {}
         for r in rec["res"]["rows"]:
             if r["w"] > 0:
                 theirs[tuple(sorted(zip(rec["res"]["vars"], r["vals"])))] = F(r["w"], rec["res"]["den"])
         if mine != theirs and not rec.get("_selftest_corrupted"):
             raise TLCFailure(f"TLA+ table and Python table disagree at step {si} of case {label}: {mine} vs {theirs}")
-        clause_level = op == "and" or (op == "or" and note["samevars"])
+        # marginalize(): "every table a public operation returns is normalised and equals the exact normalised
+        # marginal" - judged unless a group has total weight zero (then log(0) = -inf enters the scores and the
+        # constructor answers all-zero probabilities on the unchanged tree as well; counted, not judged)
+        marg_clause = op == "marg" and not note.get("zerogroup", False) and any(w > 0 for _, w in exp_rows)
+        clause_level = op == "and" or (op == "or" and note["samevars"]) or marg_clause
         if isinstance(out, tuple) and op == "marg" and not steps[si - 1]["res"]["rows"]:
             # marginalize() of an empty table raises ValueError (zip(*[])): outside the statement, counted
             ctx.count("marginalize_of_empty_table_raises")
@@ -1043,7 +1187,7 @@ def judge_factor_case(ctx, case, steps, paths, *, real=None, label=""):
             else:
                 ctx.drift(f"factor-{op}-raises", {"case": digest(case), "exc": out[1]})
             break
-        pr, wt, od = compare_table(out, exp_rows, keys_flat=(op == "marg"))
+        pr, wt, od = compare_table(out, exp_rows, keys_flat=(op == "marg"), ex=ex)
         rows = real_fn(out)
         if op == "and":
             # "the product ... is the normalised natural join of their rows with multiplied weights"
@@ -1055,16 +1199,19 @@ def judge_factor_case(ctx, case, steps, paths, *, real=None, label=""):
             dr = (pr if not note.get("anyempty", False) and rows and not all(p == 0.0 for _, p, _, _ in rows) else None) or od
             if pr is not None and dr is None:
                 ctx.count("mix_returned_operand_with_unnormalised_probs")
+        elif marg_clause:
+            prob, dr = pr, (wt or od)
         else:
-            # constructor / scaling / marginalisation: outside the statement, weights only
+            # constructor / scaling / marginal with an empty group: outside the statement, weights only
             prob, dr = None, (wt or od)
             # side observation: .probs of a table built from logits with a -inf entry are all zero
-            if rows and all(p == 0.0 for _, p, _, _ in rows) and any(w > 0 for _, _, w, _ in rows):
+            if rows and all(p == 0.0 for _, p, _, _ in rows) and any(lg > float("-inf") for _, _, lg, _ in rows):
                 ctx.count(f"{op}_result_probs_all_zero_because_one_row_has_weight_zero")
         if prob is not None:
             ok = False
             if clause_level:
-                ctx.violation(factor_signature(note, "wrong-probabilities" if op == "and" else "wrong-weights", upstream), f"{op}: {prob}",
+                ctx.violation(factor_signature(note, "wrong-weights" if op == "or" else "wrong-probabilities", upstream, ex,
+                                               [i["op"] for i in case["prog"][:si - 1]]), f"{op}: {prob}",
                               {"kind": "factor", "case": case, "paths": {str(k): list(v) for k, v in paths.items()}, "step": si})
                 violated = True
             else:
@@ -1091,7 +1238,7 @@ def factor_nontrivial(case):
 
 
 def factor_batch_tlc(ctx, cases, tag=""):
-    batch = [{"tabs": c["tabs"], "prog": c["prog"], "top": c["top"]} for c in cases]
+    batch = [{"tabs": c["tabs"], "prog": c["prog"], "top": c["top"], "exps": c.get("exps") or [0] * len(c["tabs"])} for c in cases]
     return run_tlc(ctx.workdir / f"factor_batch{tag}", "C18_Factor", FACTOR_CFG, files={"batch.json": batch},
                    env={"BATCH_FILE": "batch.json", "MODE": "batch", "EXH": "none"}, coverage=(ctx.tier == "thorough"), heap="3g")
 
@@ -1138,9 +1285,9 @@ def run_factor_exh(ctx, family, res=None):
         case = {"tabs": [r["t1"], r["t2"]], "prog": [instr("load", 1), instr("load", 2), instr(op)], "top": [1, 2, 3],
                 "lab": n % 2, "ctor": ["probs", "logits"] if n % 3 else ["logits", "probs"]}
         # steps 1, 2 are the constructors: expected = the tables themselves
-        steps = {1: {"note": {"op": "load", "samevars": False, "keyorder": False, "disjoint": False, "anyempty": False}, "res": r["t1"]},
-                 2: {"note": {"op": "load", "samevars": False, "keyorder": False, "disjoint": False, "anyempty": False}, "res": r["t2"]},
-                 3: {"note": r["note"], "res": r["res"]}}
+        steps = {1: {"note": {"op": "load", "samevars": False, "keyorder": False, "disjoint": False, "anyempty": False}, "res": r["t1"], "ex": 0},
+                 2: {"note": {"op": "load", "samevars": False, "keyorder": False, "disjoint": False, "anyempty": False}, "res": r["t2"], "ex": 0},
+                 3: {"note": r["note"], "res": r["res"], "ex": r.get("ex", 0)}}
         judge_factor_case(ctx, case, steps, EXH_PATHS, label=f"exh{n}")
         if factor_nontrivial(case):
             ctx.nontrivial("factor:" + digest({"t": case["tabs"], "p": op}))
@@ -1152,7 +1299,7 @@ def run_factor_exh(ctx, family, res=None):
 def start_factor(ctx):
     """Generates the factor cases and starts their TLC runs in the background."""
     rng = random.Random(ctx.seed * 2003 + 181)
-    n = 800 if ctx.tier == "quick" else 6000
+    n = 1200 if ctx.tier == "quick" else 8000
     cases = make_factor_cases(rng, n)
     chunks = [cases[k:k + 2000] for k in range(0, len(cases), 2000)]
     futs = [_POOL.submit(factor_batch_tlc, ctx, ch, str(i)) for i, ch in enumerate(chunks)]
@@ -1198,7 +1345,9 @@ def replay(ctx, case):
         if case.get("kind") == "factor":
             c = case["case"]
             paths = {int(k): tuple(v) for k, v in case["paths"].items()}
-            batch = [{"tabs": c["tabs"], "prog": c["prog"], "top": c["top"]}]
+            for ins in c["prog"]:
+                ins.setdefault("e", 0)
+            batch = [{"tabs": c["tabs"], "prog": c["prog"], "top": c["top"], "exps": c.get("exps") or [0] * len(c["tabs"])}]
             res = run_tlc(ctx.workdir / "factor_replay", "C18_Factor", FACTOR_CFG, files={"batch.json": batch},
                           env={"BATCH_FILE": "batch.json", "MODE": "batch", "EXH": "none"})
             ctx.add_tlc(res, "replay of one factor case")
